@@ -163,7 +163,8 @@ def r4(ctx: Ctx) -> None:
     col = ctx.fn(GC + ".collect")
     sl = ctx.slicer(col)
     for c in ctx.calls(col, name="_gc_prefix"):
-        arg = kwarg(c.ast, "reachable_set", 1)
+        from .c05 import membership_param
+        arg = kwarg(c.ast, membership_param(ctx), 1)
         org = sl.origins(arg, c.id)
         ok = any(isinstance(x, ast.Call) and (dotted(x.func) or "").endswith("_load_inflight_protection") for x in org["calls"])
         ctx.ob("C06.R4", col, "sweep receives the protected set", c, ok, "reachable ∪ protected for data AND manifests")
